@@ -184,10 +184,26 @@ def run_failure_keeps_default(w, mode):
     return out
 
 
+USER_NG = [
+    ['type', 'NG', 'g0', None],
+    ['unit', 'NG', 'gneg', ['scaled', 'F:-1/4', 'g0']],      # negative scale
+    ['unit', 'NG', 'kgneg', ['scaled', 'i:1000', 'gneg']],
+    ['unit', 'NG', 'g2', ['scaled', 'i:2', 'g0']],
+]
+
+
+def type_world(tname):
+    w = World(catalogue=True)
+    if tname == 'NG':           # only in a fresh fork
+        for ev in USER_NG:
+            w.must(ev)
+    return w
+
+
 def part(p, ts, modes):
     tname, s_self, s_quant = p
     st = Stats()
-    w = World(catalogue=True)
+    w = type_world(tname)
     for quant in QUANTA:
         for t in ts:
             for mode in modes:
@@ -230,6 +246,7 @@ def part_round(p):
 def replay(case):
     w = World(catalogue=True)
     if 'quantize' in case:
+        w = type_world(case['quantize'][0])
         t, ss, sq, quant, tv, mode, how = case['quantize']
         return run_quantize(w, t, ss, sq, quant, F(tv), mode, how)
     if 'round' in case:
@@ -256,6 +273,11 @@ def run(tier, seed):
             pick = [rot[0], rot[len(rot) // 2], rot[-1]]
             parts += [(tname, a, b) for a in pick for b in pick]
     total.merge(pmap(part, parts, (ts, O.MODES)))
+    # a user type with negatively scaled units (the quantum itself is given
+    # in positively scaled ones)
+    total.merge(pmap(part, [('NG', a, b) for a in ('g0', 'gneg', 'kgneg')
+                            for b in ('g0', 'g2')], (ts, O.MODES),
+                     fresh=True))
     rparts = [(t, s) for t in TYPES for s in list(O.CATALOGUE[t][3])[:3]]
     total.merge(pmap(part_round, rparts))
     # rejections
